@@ -412,6 +412,8 @@ def run_scenario(sc, props):
                 out += check_yearly(sc, win, ents, fd, td)
             if "C07" in props:
                 out += check_balances(sc, win, td)
+            if "C10" in props and "C06" not in props and monotone_dates:
+                out += [("C10", "yearly summary under the window: " + w) for _, w in check_yearly(sc, win, ents, fd, td)]
             if "C10" in props:
                 shown = entries_of(win)
                 want = [g for g in ents if fd <= g.taxable_event.timestamp.date() <= td]
@@ -440,6 +442,40 @@ def run_scenario(sc, props):
             b = entries_of(tr)
             if len(a) != len(b) or not all(same_figures(x, y) for x, y in zip(a, b)):
                 out.append(("C09", f"adding transactions after {cut} changed earlier results: {[desc_entry(g) for g in a]} vs truncated run {[desc_entry(g) for g in b]}"))
+                break
+    if "C09" in props and monotone_dates and not region_non_monotone_local_dates(sc):
+        # (inside that region the to-date cut itself is known finding 9.2, reported under C06/C07/C10: not repeated here)
+        days = sorted({local_date(t["ts"]) for t in txs})
+        for d in days[:-1]:
+            sub = dict(sc)
+            sub["txs"] = [t for t in txs if local_date(t["ts"]) <= d]
+            if not any(t["tab"] == "IN" for t in sub["txs"]):
+                continue
+            try:
+                lim, _ = compute(sc, from_date=MIN_DATE, to_date=d, allow_negative=True)
+                tr, _ = compute(sub, from_date=MIN_DATE, to_date=MAX_DATE, allow_negative=True)
+            except RP2ValueError:
+                continue
+            a, b = entries_of(lim), entries_of(tr)
+            if len(a) != len(b) or not all(same_figures(x, y) for x, y in zip(a, b)):
+                out.append(("C09", f"run limited by to-date {d} differs from the run on the history truncated at {d}: {[desc_entry(g) for g in a]} vs {[desc_entry(g) for g in b]}"))
+                break
+
+            def numbering(cd):
+                gs = cd.gain_loss_set
+                res = []
+                for g in entries_of(cd):
+                    res.append((gs.get_taxable_event_fraction(g), gs.get_taxable_event_number_of_fractions(g.taxable_event),
+                                gs.get_acquired_lot_fraction(g) if g.acquired_lot else None, gs.get_acquired_lot_number_of_fractions(g.acquired_lot) if g.acquired_lot else None))
+                return res
+            na, nb = numbering(lim), numbering(tr)
+            if na != nb:
+                out.append(("C09", f"fraction numbering (k, n per event / per lot) of the run limited by to-date {d} is {na}, on the history truncated at {d} it is {nb}"))
+                break
+            ya = sorted((y.year, y.transaction_type.value, bool(y.is_long_term_capital_gains), str(y.crypto_amount), str(y.fiat_gain_loss)) for y in lim.yearly_gain_loss_list)
+            yb = sorted((y.year, y.transaction_type.value, bool(y.is_long_term_capital_gains), str(y.crypto_amount), str(y.fiat_gain_loss)) for y in tr.yearly_gain_loss_list)
+            if ya != yb:
+                out.append(("C09", f"yearly totals of the run limited by to-date {d} are {ya}, on the truncated history {yb}"))
                 break
     return out
 
@@ -637,6 +673,14 @@ def curated():
     # same-instant buy + sell on one account; mixed offsets near the window bounds
     out.append({"txs": [IN("2020-12-31T21:30:00-05:00", "1", "10", 2), OUT("2021-01-01T03:00:00+00:00", "0.4", "20", 3), IN("2021-01-01T12:00:00+09:00", "1", "30", 4),
                         OUT("2021-12-31T22:00:00-05:00", "0.5", "40", 5)], "schedule": {"1970": "fifo"}, "from": "2021-01-01", "to": "2021-12-31"})
+    for m in ("fifo", "lifo", "hifo", "lofo"):
+        # sub-second timestamps: a lot bought half a second AFTER a sale must not be offered to it
+        out.append({"txs": [IN("2020-05-01T10:00:00+00:00", "10", "100", 2), OUT("2020-05-01T12:00:00.250000+00:00", "4", "300", 3),
+                            IN("2020-05-01T12:00:00.750000+00:00", "5", "500", 4), OUT("2020-05-02T12:00:00+00:00", "11", "400", 5)], "schedule": {"1970": m}})
+        # one lot sold in three pieces across two years, to-date between them, mid-year from-date
+        out.append({"txs": [IN("2020-01-10T10:00:00+00:00", "10", "100", 2), OUT("2020-06-01T10:00:00+00:00", "4", "300", 3),
+                            OUT("2021-02-01T10:00:00+00:00", "3", "400", 4), OUT("2021-08-01T10:00:00+00:00", "2", "500", 5), OUT("2022-03-01T10:00:00+00:00", "1", "600", 6)],
+                    "schedule": {"1970": m}, "from": "2021-06-01", "to": "2022-06-30"})
     for sc in out:
         sc.setdefault("asset", "B1")
         sc.setdefault("allow_negative", True)
